@@ -194,6 +194,9 @@ def run_case(case, rep, record=True):
         if record and len(rep.samples) < rep.max_samples:
             rep.sample(dict(source=case["source"]["kind"], bounds=spec.bounds, os=spec.os, services=spec.services,
                             processes=spec.processes, hosts=len(spec.addrs), width=h.layout.width, steps=nops))
+    except walk.SourceRejected as e:
+        if record:
+            rep.count(f"source-rejected({e.owner})")
     except Failure as f:
         fail(f, nops)
     except Exception as e:
